@@ -13,6 +13,10 @@
 -/
 import YashModel.Fork.Fields
 import YashModel.Fork.Lemmas
+import YashModel.Fork.SharedLemmas
+import YashModel.Fork.TrapInv
+import YashModel.Fork.RunLemmas
+import YashModel.Generated.ForkSystem
 namespace YashModel.Fork
 open YashModel.Generated.ForkMaps
 open YashModel.Trap (GrandState TrapState Action SubOpt)
@@ -495,5 +499,443 @@ theorem child_starts_from_entry (copied : List (String × String)) (k : Kind) (s
       = runExitTrap (body { env := plumb k (controlsJobs sh.env) (entryEnv copied k (controlsJobs sh.env) sh.env) }) := by
   unfold childShell
   rw [startKind_child]
+
+/-! ## Part 3 — the SHARED process table of the virtual system (`Fork/Shared.lean`)
+
+In the code all virtual processes live in one `SystemState` behind `Rc<RefCell<…>>`; a process is a handle with a
+`process_id`.  Parts 1–2 model a shell's process state by value.  This part is about the shared table itself:
+which entry a call can change (`exec_frame`, tied to the source by the generated `systemWrites` table), what a fork
+does to the table (`fork_frame`), and — the `schedules` quantifier of the property — that under EVERY interleaving
+of the calls of a parent, its child and anybody else each process ends with exactly its own calls applied to what
+it inherited (`interleaving_isolated`, `shared_table_is_spec`). -/
+
+/-- The methods of `VirtualSystem` behind the calls of the model (`Call`, `SysState.fork`). -/
+def modelledMethods : List String :=
+  ["Umask::umask", "Chdir::chdir", "Open::open", "Dup::dup", "Dup::dup2", "Close::close", "Fcntl::fcntl_setfd",
+   "Sigaction::sigaction", "Sigmask::sigmask", "SetRlimit::setrlimit"]
+
+/-- the write classes the generated table records for a method (`none`: no such method) -/
+def writesOf (m : String) : Option (List String) := (Generated.ForkSystem.systemWrites.find? (·.1 == m)).map (·.2)
+
+/-- ★ The tie of `exec_frame` to the source (generated `systemWrites`, re-extracted from virtual.rs on every run):
+    (1) every system call behind the model's `Call`s writes the caller's own entry `processes[self.process_id]` and
+        nothing else of the shared state — except `open` (the file system) and `sigmask` (whose only foreign write is
+        the SIGCHLD raised in the parent when unblocking delivers a pending stop/terminate signal to the caller: no
+        signal is ever pending in the modelled runs);
+    (2) `run_in_child_process` only inserts an entry;
+    (3) the system calls that write anything but their own entry and the file system are EXACTLY `exit` (SIGCHLD to the
+        parent), `run_in_child_process`, `kill`/`raise`, `setpgid`, `sigmask`, `tcsetpgrp` and `wait` — in particular
+        not `umask`, `chdir`, `dup`, `dup2`, `close`, `fcntl_setfd`, `sigaction`, `setrlimit`, `open`, `pipe`. -/
+theorem syscalls_address_own_process :
+    (∀ m ∈ modelledMethods, m ≠ "Open::open" → m ≠ "Sigmask::sigmask" → writesOf m = some ["self"])
+    ∧ writesOf "Open::open" = some ["fs", "self"]
+    ∧ writesOf "Sigmask::sigmask" = some ["other", "self"]
+    ∧ writesOf "Fork::run_in_child_process" = some ["insert"]
+    ∧ (Generated.ForkSystem.systemWrites.filter (fun r => r.2.any (fun w => w != "self" && w != "fs"))).map (·.1)
+        = ["Exit::exit", "Fork::run_in_child_process", "SendSignal::kill", "SendSignal::raise", "SetPgid::setpgid",
+           "Sigmask::sigmask", "TcSetPgrp::tcsetpgrp", "Wait::wait"] := by decide
+
+/-- how `startKind` / `startSubshell` / `subshellEntry` take the constructs of yash-semantics to be configured:
+    (source file, `Config.job_control`, `Config.ignores_sigint_sigquit`) — `( )` and the wrapper of a job-controlled
+    pipeline are `Config::foreground()`, `$( )` and the members of a pipeline `Config::new()`, `&` is background
+    with `ignores_sigint_sigquit` -/
+def modelledStarts : List (String × String × Bool) :=
+  [("command_subst.rs", "None", false), ("item.rs", "Background", true), ("pipeline.rs", "Foreground", false),
+   ("pipeline.rs", "None", false), ("subshell.rs", "Foreground", false)]
+
+/-- ★ The tie of `startKind` / `startSubshell` / `subshellEntry` to the source (generated `ForkSystem` tables,
+    re-extracted from yash-semantics and `Config::start` on every run): every construct builds the `Config` the
+    model assumes, and no other place builds one; `Config::start` hands `enter_subshell` exactly
+    `ignores_sigint_sigquit && !job-controlled` and `!job-controlled` (truth tables of the two Rust expressions);
+    the child task pushes the `Subshell` frame, disowns the jobs and resets the traps BEFORE the task runs, in
+    that order. -/
+theorem subshell_configs_as_modelled :
+    Generated.ForkSystem.subshellStarts.map (fun r => (r.1, r.2.2.1, r.2.2.2)) = modelledStarts
+    ∧ (∀ flag jc : Bool, (Generated.ForkSystem.startIgnoreTable.find? (fun r => r.1 == flag && r.2.1 == jc)).map (·.2.2)
+        = some (flag && !jc))
+    ∧ (∀ jc : Bool, (Generated.ForkSystem.startKeepTable.find? (·.1 == jc)).map (·.2) = some (!jc))
+    ∧ Generated.ForkSystem.childPrologue
+        = ["push_frame", "setpgid", "disown_all", "enter_subshell", "task", "exit_or_raise"] := by decide
+
+/-- ★ Frame: a call made through the handle of process `pid` changes the entry of `pid` by the call's effect on that
+    one `Process` (`Call.run`, nothing on failure) and leaves the entry of EVERY other process untouched. -/
+theorem exec_frame (s : SysState) (pid : Nat) (c : Call) :
+    (∀ q, q ≠ pid → (s.exec pid c).2.processes.get q = s.processes.get q)
+    ∧ (s.exec pid c).2.processes.get pid = (s.processes.get pid).map (fun p => (c.run p).2) := by
+  constructor
+  · intro q hq; rw [exec_get]; simp [hq]
+  · rw [exec_get]; simp
+
+/-- ★ `run_in_child_process` on the table: the pid handed out was not in use; the new entry is
+    `Process::fork_from(parent)`; every entry that existed — the forking process's own included — is untouched. -/
+theorem fork_frame (copied : List (String × String)) (s : SysState) (pid : Nat) (p : Proc)
+    (h : s.processes.get pid = some p) :
+    s.processes.get s.nextPid = none
+    ∧ (s.fork copied pid).2.processes.get s.nextPid = some (Proc.forkFrom copied pid p)
+    ∧ (∀ q, q ≠ s.nextPid → (s.fork copied pid).2.processes.get q = s.processes.get q)
+    ∧ (s.fork copied pid).2.processes.get pid = some p := by
+  have hfresh := nextPid_fresh s
+  have hne : pid ≠ s.nextPid := by intro e; rw [e, hfresh] at h; cases h
+  refine ⟨hfresh, ?_, ?_, ?_⟩
+  · rw [fork_get, h]; simp
+  · intro q hq; rw [fork_get, h]; simp [hq]
+  · rw [fork_get, h]; simp [hne]
+
+/-- ★★ "Under every interleaving of the child with the parent": after a fork, whatever the order in which the calls
+    of the child and of the parent (umask, chdir, open, dup, dup2, close, fcntl, sigaction, sigmask, setrlimit — in
+    any number) reach the shared `SystemState`, the parent's entry ends as the parent's OWN calls applied to its entry
+    before the fork, the child's entry as the child's own calls applied to `Process::fork_from(parent)`, and no third
+    process is touched.  Nothing the child does shows in the parent, at any intermediate point (the statement holds
+    for every prefix of the schedule, being quantified over all schedules). -/
+theorem interleaving_isolated (copied : List (String × String)) (s : SysState) (parent : Nat) (p0 : Proc)
+    (h : s.processes.get parent = some p0) (sched : List (Bool × Call)) :
+    ((s.fork copied parent).2.run copied (schedOf parent s.nextPid sched)).processes.get parent
+        = some (runCalls p0 ((sched.filter (fun x => !x.1)).map (·.2)))
+    ∧ ((s.fork copied parent).2.run copied (schedOf parent s.nextPid sched)).processes.get s.nextPid
+        = some (runCalls (Proc.forkFrom copied parent p0) ((sched.filter (fun x => x.1)).map (·.2)))
+    ∧ ∀ q, q ≠ parent → q ≠ s.nextPid →
+        ((s.fork copied parent).2.run copied (schedOf parent s.nextPid sched)).processes.get q
+          = s.processes.get q := by
+  obtain ⟨hfresh, hchild, hothers, hparent⟩ := fork_frame copied s parent p0 h
+  have hne : parent ≠ s.nextPid := by intro e; rw [e, hfresh] at h; cases h
+  obtain ⟨r1, r2, r3⟩ := run_two copied parent s.nextPid hne sched (s.fork copied parent).2 p0 _ hparent hchild
+  exact ⟨r1, r2, fun q hq1 hq2 => (r3 q hq1 hq2).trans (hothers q hq2)⟩
+
+/-- non-vacuity of `interleaving_isolated`: the child sets its umask, closes stdout and ignores SIGINT while the
+    parent opens a file and lowers its descriptor limit, interleaved -/
+def exampleInterleaving : ProcTable :=
+  ((initialSys.fork implCopied 2).2.run implCopied (schedOf 2 initialSys.nextPid
+    [(true, .umask "077"), (false, .open "f1"), (true, .close 1), (true, .sigaction Trap.SIGINT .ignore),
+     (false, .setrlimit "16")])).processes
+
+/-- … each entry shows only its owner's calls -/
+example :
+    (exampleInterleaving.get 2).map (fun p => [p.umask, p.nofile]) = some ["644", "16"]
+    ∧ (exampleInterleaving.get 2).map (fun p => (fdGet p.fds 3, fdGet p.fds 1))
+        = some (some { label := "f1" }, some { label := "out" })
+    ∧ (exampleInterleaving.get 2).map (fun p => (p.sys.disp Trap.SIGINT, p.ppid)) = some (.default, 1)
+    ∧ (exampleInterleaving.get 3).map (fun p => [p.umask, p.nofile]) = some ["077", "unlimited"]
+    ∧ (exampleInterleaving.get 3).map (fun p => (fdGet p.fds 3, fdGet p.fds 1)) = some (none, none)
+    ∧ (exampleInterleaving.get 3).map (fun p => (p.sys.disp Trap.SIGINT, p.ppid)) = some (.ignore, 2) := by
+  decide
+
+/-- ★ The process-level fork of the code (generated copy list of `Process::fork_from`) IS the Spec's fork (POSIX: fd
+    table, cwd, umask, dispositions, mask, limits), as functions on processes — so every run of the model with the
+    code's fork equals the run with the Spec's fork (`impl_run_eq_spec_run`). -/
+theorem forkFrom_impl_eq_spec : Proc.forkFrom implCopied = Proc.forkFrom specCopied := forkFrom_impl_eq_spec'
+
+/-- ★★ For EVERY schedule of calls and forks of any number of processes (what the `X:` cases run, one real
+    `SystemState`, the handles used in the order the schedule says): every entry of the shared table, as the code's
+    fork produces it (generated copy list), is what the Spec says about that process alone — its own calls applied
+    to the copy of its creator's state at the moment of its creation (`specProc`, which never looks at a table and
+    skips every step of another process); the pids in use are exactly `2 … 2 + (number of forks)`; and every call
+    answers what the Spec says (`ok`, the descriptor, the pid, or the error).  This is the `=Spec` column of the `X:`
+    cases as a theorem. -/
+theorem shared_table_is_spec (sched : List (Nat × XOp)) :
+    (∀ q, (initialSys.run implCopied sched).processes.get q = specProc specCopied sched.reverse q)
+    ∧ (∀ q, ((initialSys.run implCopied sched).processes.get q).isSome = true
+        ↔ (2 ≤ q ∧ q ≤ 2 + specCount sched.reverse))
+    ∧ (∀ x : Nat × XOp, ((initialSys.run implCopied sched).step implCopied x.1 x.2).1
+        = specResult specCopied sched.reverse x.1 x.2) := by
+  have m := matches_run implCopied sched
+  refine ⟨fun q => (m.entries q).trans (specProc_impl_eq_spec _ q), m.pids, ?_⟩
+  intro x
+  obtain ⟨p, op⟩ := x
+  have he := m.entries p
+  unfold specResult
+  rw [← specProc_impl_eq_spec, ← he]
+  cases op with
+  | call c =>
+    show ((initialSys.run implCopied sched).exec p c).1 = _
+    unfold SysState.exec
+    cases (initialSys.run implCopied sched).processes.get p <;> rfl
+  | fork =>
+    show ((initialSys.run implCopied sched).fork implCopied p).1 = _
+    rw [fork_result, m.nextPid]
+    cases (initialSys.run implCopied sched).processes.get p <;> rfl
+
+/-- The Spec's per-process reading, stated on its own: a step of ANOTHER process never changes what the Spec says
+    about `q` — unless it is the fork that creates `q`. -/
+theorem spec_skips_other_processes (copied : List (String × String)) (h : List (Nat × XOp)) (p q : Nat) (op : XOp)
+    (hpq : p ≠ q) (hnew : q ≠ 3 + specCount h) :
+    specProc copied ((p, op) :: h) q = specProc copied h q := by
+  cases op with
+  | call c => simp [specProc, hpq]
+  | fork => simp [specProc, hnew]
+
+
+/-- non-vacuity of `fork_frame` / `spec_skips_other_processes`: process 2 exists in the initial system; after one
+    fork a call of process 3 does not change what the Spec says about process 2 -/
+example :
+    (initialSys.processes.get 2).isSome = true
+    ∧ (3 : Nat) ≠ 2 ∧ (2 : Nat) ≠ 3 + specCount [((2 : Nat), XOp.fork)]
+    ∧ ((specProc specCopied [(3, .call (.umask "077")), (2, .fork)] 2).map (·.umask)) = some "644"
+    ∧ ((specProc specCopied [(3, .call (.umask "077")), (2, .fork)] 3).map (·.umask)) = some "077" := by
+  decide
+
+/-! ## Part 4 — composition with C11: the PROCESS of a subshell after entry, at every level of every run
+
+`subshell_traps_reset` / `kind_entry_traps` speak about the trap SET.  What decides whether a signal runs the
+starter's trap in the subshell is the disposition installed in the child PROCESS.  C11 proves
+(`Trap.subshell_dispositions`, `Trap.subshell_vacant`) what `enter_subshell` installs — under C11's invariant
+`Trap.Inv`.  Here the invariant is shown to hold in every shell a program of the fragment reaches and in every
+subshell it starts (`trap_invariant_everywhere`), so C11's theorems apply at every level of every run
+(`entries_hold`, `case_entry_dispositions`). -/
+
+/-- ★ C11's invariant (installed disposition of every signal = merge of the trap-set entry and the internal
+    disposition; mask consistent; map sorted) survives EVERY program of the fragment: mutators (`trap`, `set -m`
+    with its internal dispositions, …), snapshots (`trap` listing = `peek_state`), subshell constructs of every
+    kind with any body. -/
+theorem trap_invariant_everywhere (init : Nat → Trap.Disp) (hinit : ∀ s, init s ≠ .catch) :
+    ∀ (p : Prog) (sh : Shell), TrapOK init sh.env → TrapOK init (runProg implCopied p sh).env := by
+  intro p
+  induction p with
+  | ops l => intro sh h; exact applyOps_trapOK init hinit l sh h
+  | snap w tag => intro sh h; exact snapshotT_trapOK init hinit w sh tag h
+  | ok =>
+    intro sh h
+    show TrapOK init (if sh.halted.isSome then sh else { sh with env := { sh.env with exitStatus := 0 } }).env
+    split <;> exact h
+  | exitTrap => intro sh h; show TrapOK init (runExitTrap sh).env; rw [runExitTrap_env]; exact h
+  | seq a b iha ihb => intro sh h; exact ihb _ (iha sh h)
+  | sub k body during _ =>
+    intro sh h
+    show TrapOK init (runKind implCopied k sh (runProg implCopied body) during).env
+    unfold runKind
+    split
+    · exact h
+    · simp only [startKind_parent, finishKind_env]
+      exact parentSide_trapOK init hinit k sh.env during h
+
+/-- What holds in the process of a subshell of kind `k` started from `env`, right after entry (before the body):
+    C11's invariant again; NO signal except SIGCHLD has a handler installed (neither a trap command of the starter
+    nor an internal handler of an interactive shell can run in the subshell); a signal whose trap action the
+    starter had set to ignore is ignored by the process. -/
+def EntryClaims (init : Nat → Trap.Disp) (k : Kind) (jc : Bool) (env : Env) : Prop :=
+  TrapOK init (entryEnv implCopied k jc env)
+  ∧ (∀ s, s ≠ 0 → s ≠ Trap.SIGCHLD → (entryEnv implCopied k jc env).system.sys.disp s ≠ .catch)
+  ∧ (∀ s g, s ≠ 0 → s ≠ Trap.SIGCHLD → Trap.get env.traps s = some g → g.current.action = .ignore →
+      (entryEnv implCopied k jc env).system.sys.disp s = .ignore)
+
+/-- ★ The process-level half of "traps with command actions are reset to default while ignored signals stay
+    ignored", for EVERY kind, job-controlled or not (two entries for a job-controlled pipeline), from any starter
+    that satisfies C11's invariant.  Composition of `child_process_copy` (the fork copies dispositions and mask),
+    C11's `subshell_dispositions` / `subshell_vacant` and `subshell_traps_reset`. -/
+theorem kind_entry_dispositions (init : Nat → Trap.Disp) (hinit : ∀ s, init s ≠ .catch) (k : Kind) (jc : Bool)
+    (env : Env) (h : TrapOK init env) : EntryClaims init k jc env := by
+  have one : ∀ (ii ks : Bool) (e : Env), TrapOK init e →
+      TrapOK init (subshellEntry ii ks (forkedCopy implCopied e))
+      ∧ (∀ s, s ≠ 0 → s ≠ Trap.SIGCHLD → (subshellEntry ii ks (forkedCopy implCopied e)).system.sys.disp s ≠ .catch)
+      ∧ (∀ s g, s ≠ 0 → s ≠ Trap.SIGCHLD → Trap.get e.traps s = some g → g.current.action = .ignore →
+          (subshellEntry ii ks (forkedCopy implCopied e)).system.sys.disp s = .ignore) := by
+    intro ii ks e he
+    have hf := forkedCopy_trapOK init e he
+    exact ⟨subshellEntry_trapOK init ii ks _ hf,
+           fun s hs0 hc => entry_no_handler init hinit ii ks _ hf s hs0 hc,
+           fun s g hs0 hc hg ha => entry_ignored_stays init ii ks _ hf s hs0 hc g hg ha⟩
+  have two : TrapOK init env →
+      TrapOK init (subshellEntry false true (forkedCopy implCopied (subshellEntry false false (forkedCopy implCopied env))))
+      ∧ (∀ s, s ≠ 0 → s ≠ Trap.SIGCHLD → (subshellEntry false true (forkedCopy implCopied
+          (subshellEntry false false (forkedCopy implCopied env)))).system.sys.disp s ≠ .catch)
+      ∧ (∀ s g, s ≠ 0 → s ≠ Trap.SIGCHLD → Trap.get env.traps s = some g → g.current.action = .ignore →
+          (subshellEntry false true (forkedCopy implCopied
+            (subshellEntry false false (forkedCopy implCopied env)))).system.sys.disp s = .ignore) := by
+    intro he
+    obtain ⟨a1, _, _⟩ := one false false env he
+    obtain ⟨b1, b2, b3⟩ := one false true _ a1
+    refine ⟨b1, b2, ?_⟩
+    intro s g hs0 hc hg ha
+    obtain ⟨g1, hg1, ha1⟩ := (subshell_traps_reset false false (forkedCopy implCopied env)).2.1 s g hg ha
+    exact b3 s g1 hs0 hc hg1 ha1
+  unfold EntryClaims
+  cases k <;> cases jc <;>
+    simp only [entryEnv, Bool.not_true, Bool.not_false, if_true, Bool.false_eq_true, if_false] <;>
+    first | exact two h | exact one _ _ env h
+
+/-- … and a command trap of the starter leaves the DEFAULT disposition in the child process, whenever the entry
+    does not ignore that signal on purpose (`Trap.subshellOption … = clear`: everything except INT/QUIT of a
+    non-job-controlled `&` and the stop signals of a job-control shell's non-job-controlled subshell). -/
+theorem entry_command_trap_default (init : Nat → Trap.Disp) (ii ks : Bool) (env : Env) (h : TrapOK init env)
+    (s : Nat) (hs0 : s ≠ 0) (g : Trap.GrandState) (n : Nat) (hg : Trap.get env.traps s = some g)
+    (ha : g.current.action = .command n) (hopt : Trap.subshellOption s g ii ks = .clear) :
+    (subshellEntry ii ks (forkedCopy implCopied env)).system.sys.disp s = .default :=
+  entry_command_default init ii ks _ (forkedCopy_trapOK init env h) s hs0 g n hg ha hopt
+
+/-- non-vacuity of `entry_command_trap_default`: `trap 'probe T1' USR1` in the starter -/
+example :
+    let env := (applyOps { env := initialEnv } [.trap Trap.SIGUSR1 (.cmd 1)]).env
+    ((Trap.get env.traps Trap.SIGUSR1).map (·.current.action)) = some (.command 1)
+    ∧ ((Trap.get env.traps Trap.SIGUSR1).map (fun g => Trap.subshellOption Trap.SIGUSR1 g false true)) = some .clear
+    ∧ env.system.sys.disp Trap.SIGUSR1 = .catch
+    ∧ (subshellEntry false true (forkedCopy implCopied env)).system.sys.disp Trap.SIGUSR1 = .default := by
+  decide
+
+/-- "At every subshell construct the run of `p` from `sh` actually reaches — at any nesting depth — the entry
+    claims hold": the predicate follows the execution (the second part of a sequence starts from the shell the
+    first part left; the body of a subshell starts from its entry environment). -/
+def EntriesHold (init : Nat → Trap.Disp) : Prog → Shell → Prop
+  | .seq a b, sh => EntriesHold init a sh ∧ EntriesHold init b (runProg implCopied a sh)
+  | .sub k body _, sh =>
+    sh.halted = none →
+      EntryClaims init k (controlsJobs sh.env) sh.env
+      ∧ EntriesHold init body
+          { env := plumb k (controlsJobs sh.env) (entryEnv implCopied k (controlsJobs sh.env) sh.env) }
+  | _, _ => True
+
+/-- ★★ For EVERY program of the fragment run from any shell that satisfies C11's invariant: at every subshell
+    construct the run reaches, at every depth, the child process starts with no inherited handler and with the
+    starter's ignored signals ignored (`EntryClaims`).  By induction on the program, the invariant being carried
+    along the execution by `trap_invariant_everywhere` and into each child by `kind_entry_dispositions`. -/
+theorem entries_hold (init : Nat → Trap.Disp) (hinit : ∀ s, init s ≠ .catch) :
+    ∀ (p : Prog) (sh : Shell), TrapOK init sh.env → EntriesHold init p sh := by
+  intro p
+  induction p with
+  | ops _ => intro _ _; trivial
+  | snap _ _ => intro _ _; trivial
+  | ok => intro _ _; trivial
+  | exitTrap => intro _ _; trivial
+  | seq a b iha ihb =>
+    intro sh h
+    exact ⟨iha sh h, ihb _ (trap_invariant_everywhere init hinit a sh h)⟩
+  | sub k body during ih =>
+    intro sh h _
+    have hc := kind_entry_dispositions init hinit k (controlsJobs sh.env) sh.env h
+    refine ⟨hc, ih _ ?_⟩
+    exact trapOK_congr init _ _ (plumb_trapState k _ _) hc.1
+
+/-- ★ … in particular for every case of the sweep, from the shell the harness starts (inherited-ignored signal,
+    internal dispositions of an interactive shell or not): the driver runs `runProg implCopied (caseProg c)` from
+    `startEnv c`, and that very run satisfies the entry claims at all its levels and ends in a shell that still
+    satisfies C11's invariant. -/
+theorem case_entry_dispositions (c : Case) :
+    EntriesHold (initOf c) (caseProg c) { env := startEnv c }
+    ∧ TrapOK (initOf c) (runCase implCopied c).env :=
+  ⟨entries_hold (initOf c) (initOf_ne_catch c) (caseProg c) _ (startEnv_trapOK c),
+   trap_invariant_everywhere (initOf c) (initOf_ne_catch c) (caseProg c) _ (startEnv_trapOK c)⟩
+
+/-- non-vacuity: an interactive shell (internal `Catch` for SIGINT) with `trap … USR1` and `trap '' QUIT`; in the
+    `( )` child SIGINT and SIGUSR1 are back to the default disposition, SIGQUIT is ignored; in the `&` child
+    SIGINT is ignored -/
+example :
+    let env := (applyOps { env := startEnv { pro := [], kinds := [], child := [], during := [], internal := true } }
+      [.trap Trap.SIGUSR1 (.cmd 1), .trap Trap.SIGQUIT .ign]).env
+    env.system.sys.disp Trap.SIGINT = .catch ∧ env.system.sys.disp Trap.SIGUSR1 = .catch
+    ∧ (entryEnv implCopied .paren false env).system.sys.disp Trap.SIGINT = .default
+    ∧ (entryEnv implCopied .paren false env).system.sys.disp Trap.SIGUSR1 = .default
+    ∧ (entryEnv implCopied .paren false env).system.sys.disp Trap.SIGQUIT = .ignore
+    ∧ (entryEnv implCopied .async false env).system.sys.disp Trap.SIGINT = .ignore := by
+  decide
+
+
+/-! ## Part 5 — the `=Spec` column as a theorem; the freshness hypothesis of `async_parent_side` discharged -/
+
+/-- ★★ The model of the code IS the Spec on EVERY program of the fragment, from every shell: running with the copy
+    list extracted from `Process::fork_from` gives the same shell — state, halting, output — as running with the
+    fork POSIX describes.  (Breaks as soon as the extracted copy list loses one of fds / cwd / umask / dispositions /
+    mask / limits: then `forkFrom_impl_eq_spec` fails.) -/
+theorem impl_run_eq_spec_run : ∀ (p : Prog) (sh : Shell), runProg implCopied p sh = runProg specCopied p sh := by
+  intro p
+  induction p with
+  | ops _ => intro sh; rfl
+  | snap _ _ => intro sh; rfl
+  | ok => intro sh; rfl
+  | exitTrap => intro sh; rfl
+  | seq a b iha ihb => intro sh; show runProg implCopied b (runProg implCopied a sh) = _; rw [iha, ihb]; rfl
+  | sub k body during ih =>
+    intro sh
+    show runKind implCopied k sh (runProg implCopied body) during = runKind specCopied k sh (runProg specCopied body) during
+    have : runProg implCopied body = runProg specCopied body := funext ih
+    rw [this]
+    exact runKind_congr implCopied specCopied forkFrom_impl_eq_spec k sh _ during
+
+/-- … so for every case the driver's two columns agree: what the `=Spec` comparison checks per case is a theorem
+    for all cases (the comparison that remains is the one against the real code). -/
+theorem case_model_eq_spec (c : Case) : observation (runCase implCopied c) = specObservation c := by
+  unfold specObservation runCase
+  rw [impl_run_eq_spec_run]
+
+/-- ★ The hypothesis of `async_parent_side` ("the identities in the job table are fresh") is an invariant of every
+    run: it holds in the shell a case starts from and is kept by every program of the fragment (in the starter; the
+    same argument applies inside every child, whose table is the starter's, disowned).  So for every `&` the sweep
+    runs, the starter's job list afterwards is the list before and only `$!` changed. -/
+theorem jobs_fresh_everywhere (copied : List (String × String)) :
+    ∀ (p : Prog) (sh : Shell), JobsFresh sh.env.jobs → JobsFresh (runProg copied p sh).env.jobs := by
+  intro p
+  induction p with
+  | ops l => intro sh h; exact applyOps_jobsFresh l sh h
+  | snap w tag =>
+    intro sh h
+    show JobsFresh (snapshotT w sh tag).env.jobs
+    unfold snapshotT
+    split
+    · exact h
+    · split <;> exact h
+  | ok =>
+    intro sh h
+    show JobsFresh (if sh.halted.isSome then sh else { sh with env := { sh.env with exitStatus := 0 } }).env.jobs
+    split <;> exact h
+  | exitTrap => intro sh h; show JobsFresh (runExitTrap sh).env.jobs; rw [runExitTrap_env]; exact h
+  | seq a b iha ihb => intro sh h; exact ihb _ (iha sh h)
+  | sub k body during _ =>
+    intro sh h
+    show JobsFresh (runKind copied k sh (runProg copied body) during).env.jobs
+    unfold runKind
+    split
+    · exact h
+    · simp only [startKind_parent, finishKind_env]
+      show JobsFresh (parentSide k sh.env during).env.jobs
+      by_cases hk : k = .async
+      · subst hk
+        exact jobsFresh_removeLast _ (applyOps_jobsFresh during { env := { sh.env with jobs := sh.env.jobs.add } }
+          (jobsFresh_add _ h))
+      · rw [parentSide_sync' k sh.env during hk]; exact h
+
+theorem case_jobs_fresh (copied : List (String × String)) (c : Case) : JobsFresh (runCase copied c).env.jobs :=
+  jobs_fresh_everywhere copied (caseProg c) _ (by intro e he; cases he)
+
+/-- `async_parent_side` with its hypothesis in the decidable/invariant form -/
+theorem async_parent_side_fresh (env : Env) (h : JobsFresh env.jobs) :
+    (parentSide .async env []).env
+      = { env with jobs := { env.jobs with last := some env.jobs.next, next := env.jobs.next + 1 } } :=
+  async_parent_side env (fun e he => Nat.ne_of_lt (h e he))
+
+/-! ### non-vacuity of the theorems with hypotheses -/
+
+/-- `async_parent_side`: a table with two jobs (fresh identities 0 and 1) -/
+example :
+    let env := (applyOps { env := initialEnv } [.bg, .bg]).env
+    JobsFresh env.jobs ∧ env.jobs.list.length = 2
+    ∧ showJobs (parentSide .async env []).env.jobs = "j=1,2 !=?" := by
+  refine ⟨?_, by decide, by decide⟩
+  exact applyOps_jobsFresh [.bg, .bg] { env := initialEnv } (by intro e he; cases he)
+
+/-- `parent_observes_only_status`: two different bodies that both end with status 3 -/
+example :
+    (childShell implCopied .paren { env := initialEnv } (fun c => applyOps c [.set "va" "1", .exit 3])).halted = some 3
+    ∧ (childShell implCopied .paren { env := initialEnv } (fun c => applyOps c [.umask "077", .bg, .exit 3])).halted
+        = some 3 := by
+  decide
+
+/-- `signaled_child_only_status` / `interactive_sigint_interrupts`: a child that kills itself with SIGINT — in a
+    non-interactive starter (first theorem: `interactive` off) and at the top level of an interactive one with the
+    default SIGINT action (second theorem) -/
+example :
+    (childShell implCopied .paren { env := initialEnv } (fun c => applyOps c [.raise Trap.SIGINT])).halted
+        = some (384 + Trap.SIGINT)
+    ∧ initialEnv.options.contains "interactive" = false
+    ∧ initialEnv.options.contains "errexit" = false
+    ∧ (let env := startEnv { pro := [], kinds := [], child := [], during := [], internal := true }
+       isInteractive env = true ∧ sigintDefault env = true
+       ∧ (childShell implCopied .subst { env := env } (fun c => applyOps c [.raise Trap.SIGINT])).halted
+           = some (384 + Trap.SIGINT)) := by
+  decide
+
+/-- `subshell_never_interrupts`: the environment of a subshell of an interactive shell -/
+example :
+    ((entryEnv implCopied .paren false
+      (startEnv { pro := [], kinds := [], child := [], during := [], internal := true })).stack.contains "Subshell")
+      = true := by
+  decide
+
 
 end YashModel.Fork
